@@ -139,7 +139,10 @@ func callGFunction(L *LState, tailcall bool) bool {
 	return false
 }
 
-func threadRun(L *LState) {
+// threadRun runs the coroutine L until it yields, returns or fails. enter
+// hands the values of the resume over; it runs under the recovery below so that
+// values that do not fit into L's registry kill L like any other error in it.
+func threadRun(L *LState, enter func()) {
 	if L.stack.IsEmpty() {
 		return
 	}
@@ -172,6 +175,7 @@ func threadRun(L *LState) {
 			}
 		}
 	}()
+	enter()
 	L.mainLoop(L, nil)
 }
 
